@@ -213,6 +213,45 @@ fn subjects() -> Vec<Subject> {
             }),
         });
     }
+    // the cache-node setters called with ZERO arguments: an option marks its property valid whatever value it is given
+    // (cache id 0, for the first cache of a system numbered from 0, is an ordinary value)
+    v.push(Subject {
+        exclusive: vec![],
+        unjudged: vec![],
+        name: "pptt.CacheNodeBuilder[zero arguments]",
+        actions: vec!["size(0)", "sets(0)", "associativity(0)", "line_size(0)", "id(0)", "size(x)", "id(x)"],
+        real: Box::new(move |s| {
+            let mut b = pptt::CacheNodeBuilder::default();
+            for a in s {
+                b = match a {
+                    0 => b.size(0),
+                    1 => b.sets(0),
+                    2 => b.associativity(0),
+                    3 => b.line_size(0),
+                    4 => b.id(0),
+                    5 => b.size(f.u32(0)),
+                    _ => b.id(f.u32(7)),
+                };
+            }
+            ser(&b.to_node())
+        }),
+        reference: Box::new(move |s| {
+            // flags: bit0 size, 1 sets, 2 associativity, 6 line size, 7 id — set by the call, not by the value
+            let flag_of = [1u32, 2, 4, 64, 128, 1, 128];
+            let flags = s.iter().fold(0u32, |m, a| m | flag_of[*a as usize]);
+            let size = match s.iter().rev().find(|a| **a == 0 || **a == 5) {
+                Some(5) => f.u32(0),
+                _ => 0,
+            };
+            let id = match s.iter().rev().find(|a| **a == 4 || **a == 6) {
+                Some(6) => f.u32(7),
+                _ => 0,
+            };
+            let mut w = W::new();
+            w.u8(1).u8(28).u16(0).u32(flags).u32(0).u32(size).u32(0).u8(0).u8(0).u16(0).u32(id);
+            w.0
+        }),
+    });
     // CEDT fixed memory window restrictions, for every interleave-ways value x arithmetic x a granularity (an option must
     // set its own bit whatever the window it is applied to looks like)
     for wi in 0..8usize {
